@@ -35,7 +35,7 @@ SHARD_SIZE = 8
 
 
 def budget(tier):
-    return 200 if tier == "quick" else 3500
+    return 200 if tier == "quick" else 2400
 
 
 def shared_variant(rng, spec):
